@@ -322,7 +322,10 @@ def load_model(u: Unit):
             u.oblige(p, f"load_model.effect[{b}]", bool(cur_arr is want), {}, LOAD_REPLAY)
     u.cover("load_model.cover", ps, lambda p: p.kind == "return")
     fs_ = u.fn("pyxel/models/util.py::save_detector")
-    u.static("save_model", "detector.save(filename)" in ast.unparse(fs_.node), fs_.qualname, "save_detector writes detector.save(filename)")
+    from . import defuse as DU
+    sv = [c for c in DU.calls(fs_.node, "save") if DU.norm(fs_.node, c.func) == "detector.save"]
+    arg = (DU.pos_args(fs_.node, sv[0]) or [DU.kw_args(fs_.node, sv[0]).get("filename")])[0] if len(sv) == 1 else None
+    u.static("save_model", len(sv) == 1 and arg == "filename", fs_.qualname, f"save_detector writes detector.save(filename): argument {arg}")
 
 
 @unit("C18", "dispatch")
